@@ -176,6 +176,10 @@ def _site(ctx: Ctx, g: Func, call: ast.Call, arg: ast.AST) -> None:
     """classify the hashed expression: must be the bound value itself"""
     rep = ctx.report
     where = g.loc(call)
+    if isinstance(arg, ast.Name):
+        ds = flow_of(ctx.prog, g).defs_of_use(arg)
+        if len(ds) == 1 and ds[0].kind == "assign" and ds[0].value is not None:
+            arg = ds[0].value
     kind, base = _classify(arg)
     desc = f"hashing site `{unparse(call, 50)}` hashes the bound value unchanged"
     if kind is not None:
